@@ -17,6 +17,7 @@ from .terms import (
     Index,
     Interval,
     Node,
+    _in_stable_order,
     Order,
     Parameterizer,
     PeriodCriterion,
@@ -1301,7 +1302,8 @@ class QueryBuilder(Selectable, Term):  # type:ignore[misc]
             raise AttributeError("'Query' object has no attribute '%s'" % "rollup")
 
         terms = [  # type:ignore[assignment]
-            Tuple(*term) if isinstance(term, (list, tuple, set)) else term for term in terms
+            Tuple(*_in_stable_order(term)) if isinstance(term, (list, tuple, set)) else term
+            for term in terms
         ]
 
         if for_mysql:
